@@ -305,6 +305,36 @@ func checkC06(p *Prog, r *Report) {
 		sort.Strings(missing)
 		r.Check(len(missing) == 0 && st != nil, "replacePairRemote copies every field", p.Pos(f.Body.Pos()), itoa(len(covered))+" fields carried over", "fields of CandidatePair not carried over to the replacement pair: "+strings.Join(missing, ", ")+" — the superseded pair loses that part of its identity")
 	}
+	if f := p.Fn("Agent.replaceRemoteInPairs"); f != nil {
+		// every pair that references the superseded candidate is migrated: the loop over the checklist ends only by exhaustion
+		n := 0
+		walkBody(f, func(x ast.Node) bool {
+			rs, ok := x.(*ast.RangeStmt)
+			if !ok || !p.IsField(rs.X, "Agent.checklist") {
+				return true
+			}
+			n++
+			early := false
+			ast.Inspect(rs.Body, func(y ast.Node) bool {
+				switch z := y.(type) {
+				case *ast.ReturnStmt:
+					early = true
+				case *ast.BranchStmt:
+					if z.Tok == token.BREAK || z.Tok == token.GOTO {
+						early = true
+					}
+				case *ast.FuncLit:
+					return false
+				}
+				return true
+			})
+			r.Check(!early, "replaceRemoteInPairs migrates every affected pair", p.Pos(rs.Pos()), "the loop over the checklist has no early exit", "the migration stops after the first pair: a peer-reflexive remote is paired with every local candidate, so the other pairs keep a remote that is no longer current and a duplicate pair with a fresh ID is added for the same transport addresses")
+			return true
+		})
+		if n == 0 {
+			r.Fail("replaceRemoteInPairs migrates every affected pair", p.Pos(f.Body.Pos()), "no loop over the checklist")
+		}
+	}
 	if f := p.Fn("Agent.replaceRemoteInPairs"); r.Anchor("Agent.replaceRemoteInPairs", f != nil) {
 		has := map[string]bool{}
 		walkBody(f, func(n ast.Node) bool {
